@@ -85,6 +85,13 @@ Section Decision.
     needs_more_class (parse_class input) (ends_with_line_continuation input).
 End Decision.
 
+(** [P] holds of every element but the last. *)
+Fixpoint nonlast {A} (P : A -> Prop) (l : list A) : Prop :=
+  match l with
+  | [] => True
+  | x :: r => match r with [] => True | _ => P x /\ nonlast P r end
+  end.
+
 (** ** The accumulation loop, for any decision function. *)
 Section Chunks.
   Variable nm : str -> bool.
